@@ -4,3 +4,8 @@ from .kernels import run_c13
 
 def run(ctx):
     run_c13(ctx)
+    # the L in `D·L components, L vectors` is the graph's loop number (restated from C03-a: a loop count taken from a formula that
+    # is wrong for some graphs — Euler on a disconnected graph — drops or adds a Gaussian vector while get_dimension stays right)
+    from .kernels import graph_dod_clause, restated_clause
+    ctx.rule("C13-f", "the loop count L that sizes the Gaussian block is the loop-number routine's value on all edges (sum over components)")
+    restated_clause(ctx, "C13-f", "preprocessing::TropicalGraph::from_graph", "graph-loops", lambda: graph_dod_clause(ctx, "C13-f"))
